@@ -358,7 +358,7 @@ def run(rec, shard, nshards, t):
     rnd = core.rng_for('C05', shard)
     tmp = tempfile.mkdtemp(prefix='vt-c05-')
     try:
-        n = (2000 if t == 'quick' else 40000) // nshards
+        n = (2000 if t == 'quick' else 200000) // nshards
         for i in range(n):
             judge_csv_case(rec, rnd, tmp, t)
             if i % 5 == 0:
